@@ -986,6 +986,21 @@ pub mod implementations {
             return Ok(());
         }
 
+        // `(x) or y` yields the present value, not its optional wrapper
+        let present = if let Primitive::Optional(Some(present)) = primitive
+            .move_out_of_heap_primitive_borrow()
+            .context("could not move out of heap primitive")?
+            .as_ref()
+        {
+            Some(present.as_ref().clone())
+        } else {
+            None
+        };
+
+        if let Some(present) = present {
+            ctx.set_last_op_item(present);
+        }
+
         ctx.signal(InstructionExitState::Goto(lines_to_jump));
 
         Ok(())
